@@ -145,6 +145,11 @@ func (r *Ref) isProv(p *rproc, n string) bool {
 
 // unalias: a client-side binder spelled like an alias shadows it from here on.
 func (p *rproc) unalias(ns ...string) {
+	for _, n := range ns {
+		if p.self != "" && n == p.self {
+			p.self = "" // the explicit provider name is shadowed by this binder from here on
+		}
+	}
 	hit := false
 	for _, n := range ns {
 		if p.alias[n] {
